@@ -87,6 +87,10 @@ def build_world(ctx, rng, base, git):
     elif rng.random() < 0.5:
         (sent / "shared-licence.txt").write_text("shared text outside the project\n")
         os.symlink(str(sent / "shared-licence.txt"), proj / "LICENSES" / "LicenseRef-two.txt")
+    if (proj / "LICENSES").is_dir() and not os.path.lexists(proj / "LICENSES" / "LicenseRef-local-one.txt") and rng.random() < 0.4:
+        # a link to nowhere (yet) where a licence text would go: download adds no file there - and none where the link points to
+        os.symlink(str(sent / "not-mounted" / "LicenseRef-local-one.txt"), proj / "LICENSES" / "LicenseRef-local-one.txt")
+        (sent / "not-mounted").mkdir()
     (proj / "notes.unknownext").write_text("notes\n")
     # a Meson project that is a sub-directory of this one: its subprojects are nobody's covered files either
     (proj / "client" / "subprojects" / "libfoo").mkdir(parents=True)
